@@ -30,7 +30,7 @@ FILES = ['pyglove/ext/evolution/base.py', 'pyglove/ext/evolution/mutators.py',
          'pyglove/ext/evolution/where.py', 'pyglove/ext/evolution/nsga2.py']
 E = 'pyglove.ext.evolution.'
 MUTATING = ('rebind', 'sym_rebind', 'use_spec', 'set_metadata', 'set_userdata', 'append', 'extend',
-            'insert', 'pop', 'remove', 'clear', 'sort', 'reverse', 'update', 'seal')
+            'insert', 'pop', 'remove', 'clear', 'sort', 'reverse', 'update', 'seal', 'sym_seal')
 
 
 GENERIC_CONTAINER_MUTATORS = ('append', 'extend', 'insert', 'pop', 'remove', 'clear', 'sort', 'reverse', 'update')
